@@ -18,6 +18,7 @@
 
 #include <signal.h>
 #include <sys/resource.h>
+#include <sys/stat.h>
 #include <sys/types.h>
 #include <sys/wait.h>
 #include <unistd.h>
@@ -747,8 +748,29 @@ bool exec_one( std::map<uint64_t, World>& worlds, uint64_t& cur, const Tokens& t
             }
         }
         else if ( op == "savepath" ) {
-            bool r = w.el->save( std::string( t[1] == "full" ? "/dev/full" : "/nonexistent-directory/for/elfio/out.elf" ) );
+            std::string target = t[1] == "full" ? "/dev/full" : "/nonexistent-directory/for/elfio/out.elf";
+            char dtmpl[] = "/tmp/elfio_verif_dirXXXXXX";
+            if ( t[1] == "dir" ) {
+                // an existing directory as the output name: it cannot be opened for writing
+                if ( mkdtemp( dtmpl ) == nullptr ) { fprintf( out, "fault env: mkdtemp failed\n" ); return true; }
+                target = dtmpl;
+            }
+            bool r = w.el->save( target );
             put_n( out, 102, { r ? 1ull : 0ull } );
+            if ( t[1] == "dir" ) {
+                struct stat sb;
+                if ( stat( dtmpl, &sb ) != 0 || !S_ISDIR( sb.st_mode ) )
+                    fprintf( out, "fault output-replaced: the directory named as output is no longer a directory after save()\n" );
+                rmdir( dtmpl ); unlink( dtmpl );
+                unlink( ( std::string( dtmpl ) + ".tmp" ).c_str() );
+            }
+            if ( t[1] == "full" ) {
+                // the device must still be the device: a save() that replaces the named output by something else
+                // (write elsewhere + rename) has not written to it
+                struct stat sb;
+                if ( stat( "/dev/full", &sb ) != 0 || !S_ISCHR( sb.st_mode ) )
+                    fprintf( out, "fault output-replaced: /dev/full is no longer the device after save()\n" );
+            }
         }
         else if ( op == "validate" ) {
             std::string e = w.el->validate();
